@@ -487,6 +487,7 @@ pub fn check(case: &Case, out: &mut CaseOut) {
 
 pub fn property() -> Property {
     Property {
+        fuzz: vec![],
         id: "C15",
         rule: "a case = one mock connection (outbound via a mock factory + select_transport, or inbound via a mock listener) and a history of 1..8 ops {clone handle, drop handle, drop all, inbound message (application keeps / releases the handle that comes with it), peer close, garbage bytes, select_transport to the same remote} with gaps from {0 (same instant, no scheduling point), 1, 100, 16000, 32000-1, 32000+1, 64000} ms under a paused clock and a tokio select seed. race sub-check enumerates the race named by the property (last handle dropped and a message in the same instant, both orders, around idle periods on the 32 s edge) under 64 (thorough 256) select seeds. Oracle = lifecycle reference model: registered while referenced; delivered exactly once while alive; closed 32 s after last use; unregistered at once on peer close / framing error and never selected afterwards; inbound connections never selected. Non-trivial = a drop-last and a message within 1 ms, or an event within 1 ms of a 32 s edge.",
         assumptions: vec![
